@@ -19,7 +19,7 @@ def expected_aff_from_file(K, L, assort, diag):
     return aff
 
 
-def make_case(rng, cid, wd, variant=None, defaults=False, edges=None):
+def make_case(rng, cid, wd, variant=None, defaults=False, edges=None, const_w=False):
     directed, assort, from_init = variant if variant is not None else (rng.chance(0.5), rng.chance(0.5), rng.chance(0.5))
     e = edges if edges is not None else int_recs(rng)
     recs, L = e['recs'], e['L']
@@ -43,6 +43,9 @@ def make_case(rng, cid, wd, variant=None, defaults=False, edges=None):
     aff = [0.0] * (K * L if assort else K * K * L)
     if from_init:
         diag = [[rng.choice([0.0, round(rng.unit(), 4), round(3 * rng.unit(), 3), 1e-7]) for _ in range(K)] for _ in range(L)]
+        if const_w:
+            # one value everywhere: WHERE the reader puts the values is not this caller's subject (C14, C18), only that they are used
+            diag = [[round(0.2 + rng.unit(), 3)] * K] * L
         wdata, wstyle = files.render_affinity(rng, K, L, diag)
         open(os.path.join(d, 'w_init.dat'), 'wb').write(wdata)
         args += ['--w', 'w_init.dat']
